@@ -358,6 +358,15 @@ func runCase(c Case) (res result) {
 		res.counts["logical_cwd_confirmed_by_pwd_L"]++
 	}
 	res.counts["cases_cwd/"+cwdKind]++
+	for _, a := range c.Args {
+		if a.Spell != "" {
+			where := "top-level"
+			if c.Dir != "" {
+				where = "subdir"
+			}
+			res.counts["args_spelled/"+a.Spell+"/"+a.Mode+"/"+where]++
+		}
+	}
 
 	// ---- how the repository is addressed, where the process starts ---------------------
 	// Directories outside the work tree exist in every case (they are snapshotted after every
@@ -438,6 +447,9 @@ func runCase(c Case) (res result) {
 	}
 	// Trigger of a violation without an argument-intrinsic known coordinate
 	unattr := func(a Arg) string {
+		if a.Spell != "" {
+			return spellTrigger(a.Spell)
+		}
 		if c.Addr != "" {
 			return addrTrigger(c.Start)
 		}
@@ -457,6 +469,9 @@ func runCase(c Case) (res result) {
 	// last command that named it, if any (assigned in the step loop)
 	var argMulti []string
 	argTrig := func(ai int) string {
+		if c.Args[ai].Spell != "" {
+			return spellTrigger(c.Args[ai].Spell)
+		}
 		if ai < len(argMulti) && argMulti[ai] != "" {
 			return argMulti[ai]
 		}
@@ -477,6 +492,11 @@ func runCase(c Case) (res result) {
 		for _, ai := range args {
 			if anchoredAtTop(c, c.Args[ai]) {
 				return trigAnchoredTop
+			}
+		}
+		for _, ai := range args {
+			if c.Args[ai].Spell != "" {
+				return spellTrigger(c.Args[ai].Spell)
 			}
 		}
 		return unattr(c.Args[args[0]])
@@ -711,8 +731,15 @@ func runCase(c Case) (res result) {
 		}
 		line := lfsShown + " " + strings.Join(argv, " ")
 		for _, ai := range step.Args {
-			argv = append(argv, c.Args[ai].Text)
-			line += " " + shq(c.Args[ai].Text)
+			argv = append(argv, typed(c.Args[ai]))
+			line += " " + shq(typed(c.Args[ai]))
+			if sp := c.Args[ai].Spell; sp != "" {
+				where := "top-level"
+				if c.Dir != "" {
+					where = "subdir"
+				}
+				res.counts["spelled_args_on_command_lines/"+sp+"/"+c.Args[ai].Mode+"/"+where+"/"+step.Op]++
+			}
 			if strings.Contains(c.Args[ai].Text, " ") {
 				everSpace = true
 			}
@@ -780,6 +807,11 @@ func runCase(c Case) (res result) {
 				for _, ai := range step.Args {
 					if needsAttrEscape(c.Args[ai]) {
 						trig = trigNeedsEsc
+					}
+				}
+				for _, ai := range step.Args {
+					if trig == "" && c.Args[ai].Spell != "" {
+						trig = spellTrigger(c.Args[ai].Spell)
 					}
 				}
 				if trig == "" {
@@ -1193,7 +1225,11 @@ type sample struct {
 func mkSample(c Case) sample {
 	s := sample{Index: c.Index, Class: c.class(), Dir: c.Dir, Cwd: c.Cwd, USize: len(c.U)}
 	for _, a := range c.Args {
-		s.Args = append(s.Args, a.Mode+":"+strconv.Quote(a.Text))
+		t := a.Mode + ":" + strconv.Quote(a.Text)
+		if a.Typed != "" {
+			t += " typed " + strconv.Quote(a.Typed)
+		}
+		s.Args = append(s.Args, t)
 	}
 	for _, st := range c.Steps {
 		s.Steps = append(s.Steps, fmt.Sprint(st.Op, st.Args))
@@ -1258,7 +1294,7 @@ func main() {
 		replay(p)
 	}
 	run := evid.New("C19", "exploration")
-	run.Rule = "seeded generator, case = (invocation directory, pre-existing .gitattributes variant, 1-2 arguments, sequence of 1..8 track/--lockable/--not-lockable/untrack/repeat commands). Arguments: patterns from a small glob grammar (literal, *.ext, lit*, lit?ext, [0-9], dir/*.ext, dir/**, **/x, leading /; literals over letters, digits, space, #, quotes, !, punctuation, non-ASCII) or --filename names over printable ASCII, space, TAB, quotes, #, !, * ? [ ], backslash, non-ASCII, optionally below a sub-directory. Universe U per case = paths drawn from the argument's shape plus near misses (space<->TAB, other directory depth, outside the invocation directory, case, suffix/prefix, glob characters expanded, escapes added/removed) plus paths covered by the pre-existing patterns. Oracle = git check-attr -a on U in the repository under test against (a) Git's own matcher on the C-quoted pattern in a twin repository, (b) the single path d/N for --filename, (c) the table before the sequence. Working directory of the git-lfs commands: physical path, or (one case in three) a logical path with PWD set, through a symlink to the repository's parent / the repository / the parent of a nested invocation directory. Appended focus cases (index >= 2^20): {track --lockable A; track A; track A ...}, {track P twice from d while the top-level file already holds the LFS line d/P}, {op1 A; op1 A; op2 A; op2 A}, each under all four ways of reaching the working directory. Appended addressing cases (index >= 3*2^20): ordinary single/two-argument sequences with the repository named explicitly (GIT_DIR+GIT_WORK_TREE | git --work-tree --git-dir lfs | core.worktree+GIT_DIR) and the process started in {work tree root, sub-directory, unrelated outside directory, outside directory whose path has the work tree's path as a string prefix (-notes, .git, 2), parent}; outside starts are modelled as invocation from the work tree root (what git-lfs does after changing into the work tree); additionally no .gitattributes outside the work tree may appear or change (checked in every case). Appended multi-argument cases (index >= 2^21): 3-4 arguments in the states {tracked with the requested lockable state, tracked with the other one, new}, then track / --lockable / --not-lockable [--filename] over all of them in a drawn order (a known argument first in every second case), repeated, untrack of 2-3 of them, another track form in another order; top level and sub-directories, all four ways of reaching the working directory; per argument the single-argument expectation. A class is (argument modes, feature set or known-trigger coordinate of each argument, kind of invocation directory, pre-existing variant, way the working directory is reached, focus kind); distinct_nontrivial counts classes executed."
+	run.Rule = "seeded generator, case = (invocation directory, pre-existing .gitattributes variant, 1-2 arguments, sequence of 1..8 track/--lockable/--not-lockable/untrack/repeat commands). Arguments: patterns from a small glob grammar (literal, *.ext, lit*, lit?ext, [0-9], dir/*.ext, dir/**, **/x, leading /; literals over letters, digits, space, #, quotes, !, punctuation, non-ASCII) or --filename names over printable ASCII, space, TAB, quotes, #, !, * ? [ ], backslash, non-ASCII, optionally below a sub-directory. Universe U per case = paths drawn from the argument's shape plus near misses (space<->TAB, other directory depth, outside the invocation directory, case, suffix/prefix, glob characters expanded, escapes added/removed) plus paths covered by the pre-existing patterns. Oracle = git check-attr -a on U in the repository under test against (a) Git's own matcher on the C-quoted pattern in a twin repository, (b) the single path d/N for --filename, (c) the table before the sequence. Working directory of the git-lfs commands: physical path, or (one case in three) a logical path with PWD set, through a symlink to the repository's parent / the repository / the parent of a nested invocation directory. Appended focus cases (index >= 2^20): {track --lockable A; track A; track A ...}, {track P twice from d while the top-level file already holds the LFS line d/P}, {op1 A; op1 A; op2 A; op2 A}, each under all four ways of reaching the working directory. Argument spelling: in every case with index = 2 (mod 5) the single argument, or every second of several, is typed with a leading ./ (the spelling the unchanged tree normalises; ././P, dir/, a//b, dir/../x are not normalised there and are not generated); the model keeps the normalised text. Appended addressing cases (index >= 3*2^20): ordinary single/two-argument sequences with the repository named explicitly (GIT_DIR+GIT_WORK_TREE | git --work-tree --git-dir lfs | core.worktree+GIT_DIR) and the process started in {work tree root, sub-directory, unrelated outside directory, outside directory whose path has the work tree's path as a string prefix (-notes, .git, 2), parent}; outside starts are modelled as invocation from the work tree root (what git-lfs does after changing into the work tree); additionally no .gitattributes outside the work tree may appear or change (checked in every case). Appended multi-argument cases (index >= 2^21): 3-4 arguments in the states {tracked with the requested lockable state, tracked with the other one, new}, then track / --lockable / --not-lockable [--filename] over all of them in a drawn order (a known argument first in every second case), repeated, untrack of 2-3 of them, another track form in another order; top level and sub-directories, all four ways of reaching the working directory; per argument the single-argument expectation. A class is (argument modes, feature set or known-trigger coordinate of each argument, kind of invocation directory, pre-existing variant, way the working directory is reached, focus kind); distinct_nontrivial counts classes executed."
 	run.Assumptions = []string{
 		"Git 2.39's check-attr and its reading of C-quoted patterns in .gitattributes are the authority on what a pattern denotes",
 		"--filename N without '/' : only d/N must be tracked, d/**/N may be (gitattributes basename rule); everything else must not change",
